@@ -41,7 +41,7 @@ def greg_index(e):
 
 
 def find_cc_body(ctx, R, name):
-    hits = [b for b in ctx.prog.bodies if b.short == "linux::crash_context::x86_64::" + name]
+    hits = [b for b in ctx.prog.bodies if b.short.startswith("linux::crash_context::x86_64::") and b.short.endswith("::" + name) and "CrashContext" in b.short]
     if len(hits) != 1:
         ctx.violated(R, ("anchor", name), None, "anchor missing: CrashContext::%s (%d matches)" % (name, len(hits)))
         return None
